@@ -138,7 +138,7 @@ func refHOTP(key []byte, ctr uint64, digits, alg int) string {
 	return string(s)
 }
 
-var editKinds = []string{"exact", "flip", "droplast", "dropfirst", "append0", "prespace", "postnl", "plus", "arabic", "fullwidth", "empty", "junk", "trunc1", "fliplast", "flipfirst", "postnul", "double"}
+var editKinds = []string{"exact", "flip", "droplast", "dropfirst", "append0", "prespace", "postnl", "plus", "arabic", "fullwidth", "empty", "junk", "trunc1", "fliplast", "flipfirst", "postnul", "double", "leadplus", "leadspace"}
 
 func (c *ctx) edit(code, kind string) string {
 	switch kind {
@@ -166,6 +166,15 @@ func (c *ctx) edit(code, kind string) string {
 		b := []byte(code)
 		b[0] = '0' + (b[0]-'0'+1+byte(c.rng.Intn(9)))%10
 		return string(b)
+	case "leadplus", "leadspace":
+		// same numeric value, different bytes (meaningful when the code starts with '0')
+		if code == "" {
+			return "+"
+		}
+		if kind == "leadplus" {
+			return "+" + code[1:]
+		}
+		return " " + code[1:]
 	case "postnul":
 		return code + "\x00"
 	case "double":
